@@ -254,12 +254,16 @@ def pipeline(ctx, n):
 def run(ctx, model_ok=True):
     rec = {}
     if ctx.tier == "quick":
-        rec, runs = A.record_ep(ctx.rng, 12)
+        with A.phase(ctx, "record_ep"):
+            rec, runs = A.record_ep(ctx.rng, 8)
         ctx.notes["ep_runs_recorded"] = runs
     if model_ok:
-        A.correspondence(ctx, group(), ctx.n(12, 60), check_real=False)
-    function_level(ctx, rec, ctx.n(30, 300))
-    pipeline(ctx, ctx.n(36, 400))
+        with A.phase(ctx, "float_correspondence"):
+            A.correspondence(ctx, group(), ctx.n(6, 60), check_real=False)
+    with A.phase(ctx, "function_level"):
+        function_level(ctx, rec, ctx.n(20, 300))
+    with A.phase(ctx, "pipeline"):
+        pipeline(ctx, ctx.n(24, 400))
 
 
 def search(ctx):
